@@ -235,7 +235,7 @@ def honest_event(env, drv, weights):
         return (t, rnd.choice([OFFSET_EARLIEST, OFFSET_EARLIEST, OFFSET_LATEST, OFFSET_COMMITTED, OFFSET_COMMITTED,
                                env.log.start, pick, pick, nxt, env.log.end, env.log.end + 5]))
     if t == EV_PLAN:
-        return (t, rnd.choice([0] * 14 + [1, 2, 2]), rnd.choice([0, 0, 0, 0, 0, 1, 2, 2, 2]))
+        return (t, rnd.choice([0] * 14 + [1, 2, 2, 3]), rnd.choice([0, 0, 0, 0, 0, 1, 2, 2, 2]))
     if t == EV_PROC_FIRE:
         return (t, rnd.choice([1, 1, 1, 1, 0]))
     return (t,)
@@ -489,7 +489,7 @@ class ProcWindow(object):
             blk = list(o[2:])
             self.D = self.D + blk
             i, r = self.plan.pop(0) if self.plan else (0, 2)
-            if i == 0:
+            if i not in (1, 2, 3):            # it calls nothing back (1 stop(), 2 commit(), 3 shutdown())
                 self.finish(blk, r)
             else:
                 self.st = ("api", blk, r)
@@ -501,6 +501,34 @@ class ProcWindow(object):
                 return "a processor Deferred is cancelled but none is pending"
             self.st = None
         return None
+
+
+def epoch_state(events, steps):
+    """-> (delivered, successfully completed, offsets acknowledged by commit replies) since the last change of start
+    position (accepted start / offset request / offset-fetch request), from the trace alone"""
+    pw = ProcWindow()
+    acked, sent = [], None
+    for ev, outs in zip(events, steps):
+        accepted = not (outs and outs[0][0] == OUT_IGNORED)
+        if ev[0] == EV_START and accepted and any(o[0] == OUT_RET for o in outs):
+            pw.epoch()
+            acked = []
+        if ev[0] == EV_COMMIT_OK and accepted and sent is not None:
+            acked.append(sent)
+            sent = None
+        elif ev[0] == EV_COMMIT_FAIL:
+            sent = None
+        pw.event(ev, accepted)
+        for o in outs:
+            if o[0] in (OUT_OFFREQ, OUT_OFFFETCH):
+                pw.epoch()
+                acked = []
+            pw.out(o)
+            if o[0] == OUT_COMMIT:
+                sent = o[1]
+            elif o[0] == OUT_CANCEL_REQ and o[1] == R_COMMIT:
+                sent = None
+    return pw.D, pw.done, acked
 
 
 def mon_commit(events, steps, ends):
